@@ -411,7 +411,12 @@ func RunC02(tier string, args []string) int {
 	if len(samples) == 0 {
 		samples = []string{c02Case{List: []int{4, 1, 0}, Strict: true}.String()}
 	}
+	// all schedules (<= 2 preemptions) of two lookups on one checker next to the Cleanup of another: the revoked
+	// certificate is reported revoked whatever the other lookup does with its own answer
+	srep := exploreInProcess(chk, "C02", findScenario("s8-ocsp-lookups-vs-cleanup"), 2)
+	fmt.Printf("  S %-40s execs=%d per-bound=%v outcomes=%v\n", srep.Scenario, srep.Executions, srep.PerBound, srep.Outcomes)
 	cov := fw.Coverage{
+		"schedule_scenario":   srep,
 		"evaluations":         evals,
 		"distinct_nontrivial": nontrivial,
 		"rule":                "all responder lists of length 0..3 (quick, 2380 lists) / 0..4 (thorough, 30941 lists) over 15 behaviours; every case starts with the lookup of a client of the re-keyed CA on the same checker; x aia_strict(2) x default cache duration {0,10m} x nextUpdate {absent,+1h} (thorough) x chain shape (4 quick / 6 thorough, incl. a chain which does not contain the issuer and two chains whose CA certificates share a name); each case is a history on a fresh checker: all responders down, lookup; responders as listed, lookup; all down, lookup. Non-trivial = at least one responder named.",
